@@ -231,4 +231,4 @@ def prop(case):
     return Obs(multi and edge_used and empty_used, labels, checks=2)
 
 
-PARTS = [Part('annotate', prop, strategy=cases, quick=(8, 120), thorough=(16, 1500))]
+PARTS = [Part('annotate', prop, strategy=cases, quick=(8, 120), thorough=(16, 2500))]
